@@ -109,6 +109,12 @@ fn main() {
             };
             gen_std::std_cases(&mut emit);
         }
+        "stdall" => {
+            let mut emit = |s: String| {
+                writeln!(w, "{}", s).unwrap();
+            };
+            gen_std::stdall_case(&mut emit);
+        }
         "derive" => {
             let table = gen_derive::table();
             let mut emit = |s: String| {
